@@ -510,8 +510,29 @@ func RunTransfer(env *Env, plan *TransferPlan) {
 		}
 		return ""
 	}
+	stopMonMeta := make(chan struct{})
 	if plan.Magnet {
 		checkMagnetRoundTrip(w.tor, sut, T.InfoHash, plan.MagnetDN, plan.MagnetTiers, magnetPeers, "after add")
+		// no peer can make the torrent give up: an error stop while the metadata is still
+		// missing (layouts here are public and well-formed) is a failed fetch
+		go func() {
+			for {
+				var st torrent.Stats
+				sut.In(func() { st = w.tor.Stats() })
+				if st.Pieces.Total > 0 || st.PieceLength > 0 {
+					return // metadata adopted
+				}
+				if st.Status == torrent.Stopped && st.Error != nil {
+					simrt.Violate("C13", "metadata.torrent_stopped", "the torrent stopped with %q while fetching metadata although an honest peer offers it", st.Error)
+					return
+				}
+				select {
+				case <-stopMonMeta:
+					return
+				case <-time.After(300 * time.Millisecond):
+				}
+			}
+		}()
 		go func() {
 			<-w.tor.NotifyMetadata()
 			simrt.Logf("SUT reports metadata")
@@ -596,6 +617,7 @@ func RunTransfer(env *Env, plan *TransferPlan) {
 			}
 		}
 	}
+	defer close(stopMonMeta)
 	var apiClients []*apiClient
 	if plan.API != nil {
 		apiClients = w.startAPIClients()
@@ -642,7 +664,7 @@ func RunTransfer(env *Env, plan *TransferPlan) {
 		}
 		simrt.Logf("faults stop")
 		for _, a := range w.peers {
-			if !a.Spec.Honest {
+			if !a.Spec.Honest && !a.Spec.Stays {
 				a.Stop()
 			}
 		}
@@ -719,8 +741,12 @@ func RunTransfer(env *Env, plan *TransferPlan) {
 		if lp == "" {
 			lp = "C10"
 		}
-		simrt.Violate(lp, "liveness.not_complete", "download not complete %v after faults stopped: status=%s have=%d/%d peers=%v err=%v downloads=%+v writecache=%d/%d pending=%d avail=%d",
-			plan.Bound, st.Status, st.Pieces.Have, st.Pieces.Total, ps, st.Error, st.Downloads, ss.WriteCacheSize, sut.Cfg.WriteCacheSize, ss.WriteCachePendingKeys, st.Pieces.Available)
+		note := ""
+		if st.Downloads.Total > 0 && st.Downloads.Running == 0 && st.Downloads.Total >= sut.Cfg.EndgameMaxDuplicateDownloads {
+			note = fmt.Sprintf(" [every download is stalled (snubbed or choked) and they fill the duplicate limit %d]", sut.Cfg.EndgameMaxDuplicateDownloads)
+		}
+		simrt.Violate(lp, "liveness.not_complete", "download not complete %v after faults stopped: status=%s have=%d/%d peers=%v err=%v downloads=%+v writecache=%d/%d pending=%d avail=%d%s",
+			plan.Bound, st.Status, st.Pieces.Have, st.Pieces.Total, ps, st.Error, st.Downloads, ss.WriteCacheSize, sut.Cfg.WriteCacheSize, ss.WriteCachePendingKeys, st.Pieces.Available, note)
 	}
 	if complete {
 		w.checkComplete("final")
